@@ -1,6 +1,7 @@
-from . import check_combo, check_establish, check_pool
+from . import check_combo, check_establish, check_framing, check_pool, check_upgrade
 
 REGISTRY = {
+    "C02": check_framing,
     "C04": check_pool,
     "C05": check_pool,
     "C06": check_pool,
@@ -9,5 +10,6 @@ REGISTRY = {
     "C10": check_combo,
     "C11": check_establish,
     "C16": check_combo,
+    "C17": check_upgrade,
     "C20": check_establish,
 }
